@@ -533,6 +533,21 @@ static void cmd_oget(int nt, char **t)
 	if (nt > 3) { int hd = hidx(t[3]); H[hd] = v; Hset[hd] = 1; }
 	free(kb);
 }
+/* the same object through its documented lower-level handle (json_object_get_object): OLADD = lh_table_insert of a strdup'ed name (only for names that are absent:
+ * the table-level insert does not replace), OLDEL = lh_table_delete, OLGET = lh_table_lookup_ex  */
+static void cmd_oladd(int nt, char **t)
+{
+	int ho = hidx(t[1]), hv = hidx(t[3]); char *kb; char *k = keyarg_mis(t[2], &kb); int r; (void)nt;
+	r = lh_table_insert(json_object_get_object(H[ho]), strdup(k), H[hv]);
+	free(kb); ob_printf(&out, "= %d", r); emit_dlog();
+}
+static void cmd_oldel(int nt, char **t) { int ho = hidx(t[1]); char *kb; char *k = keyarg_mis(t[2], &kb); int r; (void)nt; r = lh_table_delete(json_object_get_object(H[ho]), k); free(kb); ob_printf(&out, "= %d", r); emit_dlog(); }
+static void cmd_olget(int nt, char **t)
+{
+	int ho = hidx(t[1]); char *kb; char *k = keyarg_mis(t[2], &kb); void *v = (void *)0x1; json_bool f = lh_table_lookup_ex(json_object_get_object(H[ho]), k, &v); (void)nt;
+	ob_printf(&out, "= %d %ld %d same=1 exists=%d noobj=0,1 notobj=0,1,0", (int)f, f ? uid_of((struct json_object *)v) : -1L, f ? v == NULL : 1, (int)lh_table_lookup_ex(json_object_get_object(H[ho]), k, NULL));
+	free(kb);
+}
 static void cmd_olen(int nt, char **t) { int ho = hidx(t[1]); (void)nt; ob_printf(&out, "= %d", json_object_object_length(H[ho])); }
 
 /* OKEYS <hobj>  -> six iteration forms, each a comma-separated list of <keyhex>:<uid|n> */
@@ -617,10 +632,12 @@ static void cmd_hash(int nt, char **t)
 
 /* ---- arrays ---- */
 static size_t SZ(const char *t) { if (!strcmp(t, "max")) return (size_t)-1; if (!strcmp(t, "max-1")) return (size_t)-2; return (size_t)strtoull(t, NULL, 0); }
-static void cmd_aadd(int nt, char **t) { int r; (void)nt; r = json_object_array_add(H[hidx(t[1])], H[hidx(t[2])]); ob_printf(&out, "= %d", r); emit_dlog(); }
-static void cmd_aput(int nt, char **t) { int r; (void)nt; r = json_object_array_put_idx(H[hidx(t[1])], SZ(t[2]), H[hidx(t[3])]); ob_printf(&out, "= %d", r); emit_dlog(); }
-static void cmd_ains(int nt, char **t) { int r; (void)nt; r = json_object_array_insert_idx(H[hidx(t[1])], SZ(t[2]), H[hidx(t[3])]); ob_printf(&out, "= %d", r); emit_dlog(); }
-static void cmd_adel(int nt, char **t) { int r; (void)nt; r = json_object_array_del_idx(H[hidx(t[1])], SZ(t[2]), SZ(t[3])); ob_printf(&out, "= %d", r); emit_dlog(); }
+/* a trailing "L" argument sends the operation through the array's lower-level handle: array_list_*(json_object_get_array(arr), ...) */
+#define AL(h) json_object_get_array(H[hidx(h)])
+static void cmd_aadd(int nt, char **t) { int r; r = nt > 3 ? array_list_add(AL(t[1]), H[hidx(t[2])]) : json_object_array_add(H[hidx(t[1])], H[hidx(t[2])]); ob_printf(&out, "= %d", r); emit_dlog(); }
+static void cmd_aput(int nt, char **t) { int r; r = nt > 4 ? array_list_put_idx(AL(t[1]), SZ(t[2]), H[hidx(t[3])]) : json_object_array_put_idx(H[hidx(t[1])], SZ(t[2]), H[hidx(t[3])]); ob_printf(&out, "= %d", r); emit_dlog(); }
+static void cmd_ains(int nt, char **t) { int r; r = nt > 4 ? array_list_insert_idx(AL(t[1]), SZ(t[2]), H[hidx(t[3])]) : json_object_array_insert_idx(H[hidx(t[1])], SZ(t[2]), H[hidx(t[3])]); ob_printf(&out, "= %d", r); emit_dlog(); }
+static void cmd_adel(int nt, char **t) { int r; r = nt > 4 ? array_list_del_idx(AL(t[1]), SZ(t[2]), SZ(t[3])) : json_object_array_del_idx(H[hidx(t[1])], SZ(t[2]), SZ(t[3])); ob_printf(&out, "= %d", r); emit_dlog(); }
 static void cmd_ashrink(int nt, char **t) { int r; (void)nt; r = json_object_array_shrink(H[hidx(t[1])], (int)L(t[2])); ob_printf(&out, "= %d", r); emit_dlog(); }
 static void cmd_aget(int nt, char **t) { int hd = hidx(t[3]); struct json_object *v = json_object_array_get_idx(H[hidx(t[1])], SZ(t[2])); (void)nt; H[hd] = v; Hset[hd] = 1; ob_printf(&out, "= %ld %d", uid_of(v), v == NULL); }
 /* ASUM <harr> -> = len=<n> cap=<size> nonnull=<count> uidsum=<sum of uids> first=<index of first non-null | -1> last=<index of last non-null | -1>   (whole-array digest for huge arrays) */
@@ -1178,6 +1195,9 @@ static void dispatch(int nt, char **t)
 	else if (!strcmp(c, "ODEL")) cmd_odel(nt, t);
 	else if (!strcmp(c, "OGET")) cmd_oget(nt, t);
 	else if (!strcmp(c, "OLEN")) cmd_olen(nt, t);
+	else if (!strcmp(c, "OLADD")) cmd_oladd(nt, t);
+	else if (!strcmp(c, "OLDEL")) cmd_oldel(nt, t);
+	else if (!strcmp(c, "OLGET")) cmd_olget(nt, t);
 	else if (!strcmp(c, "OKEYS")) cmd_okeys(nt, t);
 	else if (!strcmp(c, "OSER")) cmd_oser(nt, t);
 	else if (!strcmp(c, "OITDEL")) cmd_oitdel(nt, t);
